@@ -5,6 +5,7 @@ import DudModel.Generated.Facts
 import DudModel.Hasher
 import DudModel.Same
 import DudModel.Lock
+import DudModel.Sys
 /-!
 # `dudmodel` — line-protocol driver of the executable model
 
@@ -225,6 +226,68 @@ partial def toOldSchema (w : World ByteArray) : World ByteArray × List (Digest 
   let idx := w.idx.map fun (sp, stg) => (sp, { stg with inputs := stg.inputs.map fix, outputs := stg.outputs.map fix })
   return ({ w with store := store, idx := idx }, ren)
 
+/-! ## system-call traces (stream S2) -/
+
+def pStr (art : Nat) : Sys.P → String
+  | .ws rel => "W:" ++ hexOf (Path.intercalate rel)
+  | .obj d => "O:" ++ d
+  | .shard h => "H:" ++ h
+  | .ctmp n => s!"T:c{art}.{n}"
+  | .wtmp n => s!"T:w{art}.{n}"
+  | .cacheRoot => "C"
+  | .lock => "L"
+  | .stageFile r => "S:" ++ hexOf r
+  | .stageTmp r => "T:s" ++ hexOf r
+  | .index => "I"
+  | .indexTmp => "T:i"
+
+def callStr (art : Nat) : Sys.Call ByteArray → String
+  | .mkdir p => s!"mkdir {pStr art p}"
+  | .createExcl p => s!"create_excl {pStr art p}"
+  | .createTrunc p => s!"create_trunc {pStr art p}"
+  | .writePart _ => ""
+  | .write p _ => s!"write {pStr art p}"
+  | .rename a b => s!"rename {pStr art a} {pStr art b}"
+  | .chmod p m => s!"chmod {pStr art p} {String.ofList (Nat.toDigits 8 m)}"
+  | .unlink p => s!"unlink {pStr art p}"
+  | .symlink t p => s!"symlink {pStr art t} {pStr art p}"
+
+/-- traced `dud commit`: lock, per stage (in traversal order) plain inputs then outputs, stage files, unlock -/
+def traceCommit (strat : Strat) (canRename : Bool) (targets : List Bytes) (w : World ByteArray) : Except Err (Array String) :=
+  match cmdCommit theCfg strat targets w with
+  | .error e => .error e
+  | .ok wfin =>
+    let order := wfin.done.reverse
+    let t : Sys.TCfg ByteArray := { ctx := theCtx, isEmp := fun b => b.size == 0, strat := strat, canRename := canRename }
+    let step := fun (acc : World ByteArray × Array String × Nat × List (Sys.P)) (sp : Bytes) =>
+      let (w, out, k, dirs) := acc
+      match alookup w.idx sp with
+      | none => acc
+      | some stg =>
+        let wa := theCfg.walkAccumulates
+        let plain := (stg.inputs.filter (fun a => (findOwner wa w.idx a.path).isNone)).map (fun a => { a with skip := true })
+        let arts := sortArts plain ++ sortArts stg.outputs
+        let (w', out', k', dirs') := arts.foldl (fun (acc2 : World ByteArray × Array String × Nat × List Sys.P) a =>
+          let (w, out, k, dirs) := acc2
+          let comps := Path.comps a.path
+          match Sys.commitArtT t a comps (getPath w.ws comps) w.store with
+          | .error _ => acc2
+          | .ok ((n, _, s), calls) =>
+            -- MkdirAll issues mkdir only for directories that do not exist yet
+            let (lines, dirs) := calls.foldl (fun (p : Array String × List Sys.P) c =>
+              match c with
+              | .mkdir d => if p.2.contains d then p else (p.1.push (callStr k c), d :: p.2)
+              | _ => let l := callStr k c; if l.isEmpty then p else (p.1.push l, p.2)) (out, dirs)
+            ({ w with ws := (setPath w.ws comps n).getD w.ws, store := s }, lines, k + 1, dirs)) (w, out, k, dirs)
+        (w', out', k', dirs')
+    let existing : List Sys.P := .cacheRoot :: (storeKeys w.store).map (fun d => Sys.P.shard (Sys.shardOf d))
+    let (_, out, _, _) := order.foldl step (fresh w, #["create_excl L"], 0, existing)
+    let atomicS := Dud.Facts.stageWrite == "tempRename"
+    let out := order.foldl (fun out sp =>
+      let calls : List (Sys.Call ByteArray) := Sys.metaWriteCalls atomicS (.stageFile sp) (.stageTmp sp) (fun _ => false) ByteArray.empty
+      calls.foldl (fun o c => let l := callStr 0 c; if l.isEmpty then o else o.push l) out) out
+    .ok (out.push "unlink L")
+
 structure Sim where
   w : World ByteArray := {}
   step : Nat := 0
@@ -296,6 +359,17 @@ def applyOp (toks : List String) (w : World ByteArray) : Except Err (World ByteA
     (match alookup w.idx (unhex sp) with
      | some stg => .ok { w with idx := setStage w.idx (unhex sp) { stg with cmd := unhex cmd } }
      | none => .error .unknownStage, #[])
+  | "order" :: dir :: names =>
+    -- put the entries of a directory into the given (real readdir) order
+    let comps := Path.comps (unhex dir)
+    (match getPath w.ws comps with
+     | some (.dir es) =>
+       let want := names.map unhex
+       let known := want.filterMap (fun nm => (alookup es nm).map (fun n => (nm, n)))
+       let rest := es.filter (fun e => !want.contains e.1)
+       (match setPath w.ws comps (.dir (known ++ rest)) with
+        | some ws => .ok { w with ws := ws } | none => .error .other)
+     | _ => .ok w, #[])
   | ["moveproj", mode] =>
     -- links are relative: with a cache outside the project, moving it to another depth breaks them
     if mode == "rel" then (.ok w, #[]) else
@@ -358,6 +432,14 @@ partial def simLoop (inp out : IO.FS.Stream) (sim : Sim) : IO Unit := do
           out.putStrLn ("log" ++ String.join (w'.log.map fun s => " " ++ hexOf s))
         out.putStrLn "endstep"
         simLoop inp out { sim with w := { w' with stat := [], log := [] }, step := sim.step + 1 }
+  | "top" :: "commit" :: st :: cr :: ts =>
+    (match traceCommit (strat st) (cr == "1") (ts.map unhex) sim.w with
+     | .ok lines => do
+        out.putStrLn "trace ok"
+        emit out lines
+     | .error e => out.putStrLn s!"trace err:{e}")
+    out.putStrLn "endtrace"
+    simLoop inp out sim
   | ["end"] =>
     out.putStrLn "end"
     out.flush
